@@ -2,7 +2,7 @@
 
 Workload: seeded synthetic raw estimation outcomes (K 1-8; negative definite,
 badly scaled, exactly singular, indefinite and zero Hessians; full / low-rank /
-badly scaled BHHH; with and without null and initial likelihood; bootstrap
+badly scaled BHHH; with and without null likelihood; bootstrap
 absent or B in {2,3,10,50,200}; active bounds; names not alphabetical) pushed
 through the REAL ``RawResults`` / ``bioResults`` classes with a stub model, real
 estimations by the real ``BIOGEME.estimate`` (logit, panel, bounds,
@@ -50,12 +50,12 @@ ASSUMPTIONS = [
     'variance of a difference) are not judged; the statement defines nothing for them',
     'normal tail by math.erfc, chi-square CDF by own series/continued fraction (cross-checked against scipy.special)',
 ]
-MIN_DISTINCT = {'quick': 350, 'thorough': 10000}
+MIN_DISTINCT = {'quick': 350, 'thorough': 8000}
 CASE_TIMEOUT = 180
 
-N_SYN = {'quick': 500, 'thorough': 20000}
-N_COMPILE = {'quick': 80, 'thorough': 1500}
-N_REAL = {'quick': 32, 'thorough': 320}
+N_SYN = {'quick': 420, 'thorough': 12000}
+N_COMPILE = {'quick': 64, 'thorough': 1000}
+N_REAL = {'quick': 28, 'thorough': 240}
 DIRECTED = ['bootstrap_pvalue', 'compile_unformatted', 'single_parameter_bootstrap', 'panel_bic', 'transposed_pair']
 
 FLOAT_MAX = float(np.finfo(float).max)
@@ -1228,15 +1228,17 @@ def extra(seed, tier, workdir):
     os.makedirs(d, exist_ok=True)
     repo = os.path.dirname(env.SRC.rstrip('/')) if os.path.isdir(os.path.join(os.path.dirname(env.SRC.rstrip('/')), 'tests')) else '/repo'
     picked = []
+    for sub in sorted({t.split('/')[0] for t in REPO_TESTS}):
+        if os.path.isdir(os.path.join(repo, 'tests', sub)):
+            shutil.copytree(os.path.join(repo, 'tests', sub), os.path.join(d, sub), dirs_exist_ok=True,
+                            ignore=shutil.ignore_patterns('__pycache__', '*.iter', '*.html', '*.pickle'))
+            if os.path.exists(os.path.join(repo, 'biogeme.toml')):
+                shutil.copy(os.path.join(repo, 'biogeme.toml'), os.path.join(d, sub, 'biogeme.toml'))
     for t in REPO_TESTS:
-        src = os.path.join(repo, 'tests', t)
-        if os.path.exists(src):
-            dst = os.path.join(d, t.replace('/', '_'))
-            shutil.copy(src, dst)
-            picked.append(os.path.basename(dst))
-    for aux in ('biogeme.toml',):
-        if os.path.exists(os.path.join(repo, aux)):
-            shutil.copy(os.path.join(repo, aux), os.path.join(d, aux))
+        if os.path.exists(os.path.join(d, t)):
+            picked.append(t)
+    if os.path.exists(os.path.join(repo, 'biogeme.toml')):
+        shutil.copy(os.path.join(repo, 'biogeme.toml'), os.path.join(d, 'biogeme.toml'))
     out = os.path.join(workdir, 'c08_plugin.json')
     e = dict(os.environ)
     e['PYTHONPATH'] = env.VERIF + os.pathsep + e.get('PYTHONPATH', '')
@@ -1247,7 +1249,8 @@ def extra(seed, tier, workdir):
         return [res]
     try:
         p = subprocess.run(
-            [sys.executable, '-m', 'pytest', '-q', '-p', 'no:cacheprovider', '-p', 'biomon.oracle.c08_pytest_plugin', '--timeout=900'] + picked,
+            [sys.executable, '-m', 'pytest', '-q', '-p', 'no:cacheprovider', '-p', 'biomon.oracle.c08_pytest_plugin', '--timeout=900',
+             '--continue-on-collection-errors'] + picked,
             cwd=d, env=e, stdout=subprocess.PIPE, stderr=subprocess.STDOUT, timeout=2400, text=True)
         tail = p.stdout[-600:]
     except subprocess.TimeoutExpired:
